@@ -116,7 +116,11 @@ def node_defs(node) -> Dict[str, Optional[ast.AST]]:
       for t in a.targets:
         for nm in A.assigned_names(t):
           out[nm] = a.value
-    elif isinstance(a, (ast.AugAssign, ast.AnnAssign)):
+    elif isinstance(a, ast.AugAssign):
+      for nm in A.assigned_names(a.target):
+        b = ast.BinOp(left=ast.Name(id=nm, ctx=ast.Load()), op=a.op, right=a.value)
+        out[nm] = ast.copy_location(b, a)
+    elif isinstance(a, ast.AnnAssign):
       for nm in A.assigned_names(a.target):
         out[nm] = a.value
     elif isinstance(a, ast.Delete):
